@@ -12,11 +12,31 @@
 -/
 import SpectraVerif.Driver.Util
 import SpectraVerif.Model.HermSolver
+import SpectraVerif.Prelude.ScF32
 
 namespace Drv.C05
 open Lin Orch
 
-abbrev HSt := Orch.St (Arnoldi.State Float) Float Float (Vec Float)
+/-- how a scalar type travels on the line protocol: decimal bit patterns (64-bit for `double`, 32-bit for `float`) -/
+class BitsIO (α : Type) where
+  ofBits? : String → Option α
+  bits : α → String
+  bytes : α → List UInt64          -- little-endian bytes of the bit pattern (hashing)
+  normZero : α → α                 -- `x + 0.0` (canonical sign of zero)
+
+instance : BitsIO Float where
+  ofBits? := Drv.ofBits?
+  bits := fbits
+  bytes x := (List.range 8).map (fun b => (x.toBits >>> (8 * b.toUInt64)) &&& 0xff)
+  normZero x := x + 0.0
+
+instance : BitsIO Float32 where
+  ofBits? s := (s.toNat?).map (fun n => Float32.ofBits n.toUInt32)
+  bits x := toString x.toBits.toNat
+  bytes x := (List.range 4).map (fun b => (x.toBits.toUInt64 >>> (8 * b.toUInt64)) &&& 0xff)
+  normZero x := x + 0.0
+
+abbrev HSt (α : Type) := Orch.St (Arnoldi.State α) α α (Vec α)
 
 def splitBar : List String → List (List String)
   | [] => [[]]
@@ -25,62 +45,79 @@ def splitBar : List String → List (List String)
     | [] => [[t]]
     | h :: tl => (t :: h) :: tl
 
-def fnv (h : UInt64) (x : Float) : UInt64 :=
-  (List.range 8).foldl (fun h b => (h ^^^ ((x.toBits >>> (8 * b.toUInt64)) &&& 0xff)) * 1099511628211) h
+section generic
+variable {α : Type} [Add α] [Sub α] [Mul α] [Div α] [Neg α] [Sc α] [BitsIO α]
 
-def hashState (s : Arnoldi.State Float) : UInt64 :=
-  let h := fnv 1469598103934665603 s.beta
-  let h := (List.range s.m).foldl (fun h j => (List.range s.m).foldl (fun h i => fnv h (s.H.get i j + 0.0)) h) h
-  let h := s.f.foldl (fun h x => fnv h (x + 0.0)) h
-  (List.range s.k).foldl (fun h j => (List.range s.n).foldl (fun h i => fnv h (s.V.get i j + 0.0)) h) h
+def fnv (h : UInt64) (x : α) : UInt64 :=
+  (BitsIO.bytes x).foldl (fun h b => (h ^^^ b) * 1099511628211) h
+
+def hashState (s : Arnoldi.State α) : UInt64 :=
+  let nz : α → α := BitsIO.normZero
+  let h := fnv 1469598103934665603 (nz s.beta)
+  let h := (List.range s.m).foldl (fun h j => (List.range s.m).foldl (fun h i => fnv h (nz (s.H.get i j))) h) h
+  let h := s.f.foldl (fun h x => fnv h (nz x)) h
+  (List.range s.k).foldl (fun h j => (List.range s.n).foldl (fun h i => fnv h (nz (s.V.get i j))) h) h
+
+def arr? (l : List String) : Option (Array α) := (l.mapM BitsIO.ofBits?).map List.toArray
 
 def exnName (e : Exn) : String := "throw " ++ e.show
 
-def runCall (K : Kern (Arnoldi.State Float) Float Float (Vec Float) (Vec Float) Float (Vec Float)) (c : Cfg) (n : Nat)
-    (s : HSt) (call : List String) : Option (HSt × String) :=
+def runCall (K : Kern (Arnoldi.State α) α α (Vec α) (Vec α) α (Vec α)) (c : Cfg) (n : Nat)
+    (s : HSt α) (call : List String) : Option (HSt α × String) :=
   match call with
   | ["J"] =>
-      let v0 : Vec Float := Arnoldi.randomVec (α := Float) n 0
+      let v0 : Vec α := Arnoldi.randomVec (α := α) n 0
       let (s', e) := Orch.init K c v0 s
       some (s', match e with | none => s!"ok nmatop={s'.nmatop}" | some x => exnName x)
   | "I" :: vs => do
-      let v ← floatArr? vs
+      let v ← arr? (α := α) vs
       if v.size ≠ n then none else
       let (s', e) := Orch.init K c v s
       pure (s', match e with | none => s!"ok nmatop={s'.nmatop}" | some x => exnName x)
   | ["C", sel, maxit, tol, sort] => do
-      let sel ← parseInt? sel; let maxit ← parseNat? maxit; let tol ← ofBits? tol; let sort ← parseInt? sort
+      let sel ← parseInt? sel; let maxit ← parseNat? maxit; let tol ← (BitsIO.ofBits? tol : Option α); let sort ← parseInt? sort
       let r := Orch.compute K c sel maxit tol sort s
       pure (r.st, match r.out with
         | .ok k => s!"ret={k} info={r.st.info.code} niter={r.st.niter} nmatop={r.st.nmatop}"
         | .error x => exnName x)
   | ["E"] =>
       let ev := Orch.eigenvalues K c s
-      some (s, joinSp (s!"k={ev.length}" :: ev.map (fun x => "e:" ++ fbits x)))
+      some (s, joinSp (s!"k={ev.length}" :: ev.map (fun x => "e:" ++ BitsIO.bits x)))
   | ["V", nvec] => do
       let nv ← parseNat? nvec
       let X := Orch.eigenvectors K c nv s
-      pure (s, joinSp (s!"rows={n}" :: s!"cols={X.length}" :: X.map (fun col => showFloats (col.map (· + 0.0)))))
+      pure (s, joinSp (s!"rows={n}" :: s!"cols={X.length}" :: X.map (fun col => joinSp (col.toList.map (fun x => BitsIO.bits (BitsIO.normZero x))))))
   | ["S"] => some (s, s!"info={s.info.code} niter={s.niter} nmatop={s.nmatop}")
-  | ["F"] => some (s, s!"k={s.fac.k} beta=e:{fbits s.fac.beta} hash={hashState s.fac}")
+  | ["F"] => some (s, s!"k={s.fac.k} beta=e:{BitsIO.bits s.fac.beta} hash={hashState s.fac}")
   | _ => none
 
-def handle : List String → Option String
-  | "herm" :: variant :: n :: nev :: ncv :: eps23 :: near0 :: eps :: sigma :: rest => do
+/-- the request body, generic in the scalar -/
+def handleBody (args : List String) : Option String :=
+  match args with
+  | variant :: n :: nev :: ncv :: eps23 :: near0 :: eps :: sigma :: rest => do
       let variant ← parseNat? variant; let n ← parseNat? n; let nev ← parseNat? nev; let ncv ← parseNat? ncv
-      let eps23 ← ofBits? eps23; let near0 ← ofBits? near0; let eps ← ofBits? eps; let sigma ← ofBits? sigma
+      let eps23 ← (BitsIO.ofBits? eps23 : Option α); let near0 ← (BitsIO.ofBits? near0 : Option α)
+      let eps ← (BitsIO.ofBits? eps : Option α); let sigma ← (BitsIO.ofBits? sigma : Option α)
       let (mt, rest) ← takeN? (n * n) rest
-      let a ← floatArr? mt
+      let a ← arr? (α := α) mt
       let calls := match splitBar rest with | [] :: cs => cs | cs => cs
-      let op : Arnoldi.Op Float := { n := n, A := Arnoldi.rowMajorOp n a, B := none }
+      let op : Arnoldi.Op α := { n := n, A := Arnoldi.rowMajorOp n a, B := none }
       let c : Cfg := ⟨n, nev, ncv⟩
-      let back : Float → Float := if variant = 1 then (fun nu => 1.0 / nu + sigma) else id
+      let back : α → α := if variant = 1 then (fun nu => Lin.one / nu + sigma) else id
       let K := HermSolver.hermKern op c eps23 back
-      let s0 : HSt := Orch.construct (Arnoldi.State.mk0 n ncv near0 eps)
-      let (_, outs) ← calls.foldlM (fun (acc : HSt × List String) call => do
+      let s0 : HSt α := Orch.construct (Arnoldi.State.mk0 n ncv near0 eps)
+      let (_, outs) ← calls.foldlM (fun (acc : HSt α × List String) call => do
           let (s', o) ← runCall K c n acc.1 call
           pure (s', o :: acc.2)) (s0, [])
       pure (String.intercalate " | " outs.reverse)
+  | _ => none
+
+end generic
+
+/-- `herm …` = `Scalar = double`, `herm32 …` = `Scalar = float` (the same generic model at `Float32`) -/
+def handle : List String → Option String
+  | "herm" :: rest => handleBody (α := Float) rest
+  | "herm32" :: rest => handleBody (α := Float32) rest
   | _ => none
 
 end Drv.C05
